@@ -40,10 +40,16 @@ type Lit struct {
 }
 
 type RV struct {
-	K string `json:"k"` // int | null | lit | rd
+	K string `json:"k"` // int | null | lit | rd | call
 	N int    `json:"n,omitempty"`
 	L *Lit   `json:"l,omitempty"`
 	P *Place `json:"p,omitempty"`
+	// call: the result of a call that returns what place P holds (Model.Heap.RV.call), rendered
+	// per kind of place: $o->getP() for a property, at(<container>, k) for an element (the
+	// callee indexes its by-value copy of the container: same inner array object), and — the
+	// only call that can return a variable's own array — a closure `(fn() => $v)()` is NOT
+	// pointer-preserving here, so a variable is rendered through ident($v) (a copy: observably
+	// the same on a tree that copies at the boundary anyway).
 }
 
 // Op is one script statement. Route / Form only choose between renderings that
@@ -64,6 +70,15 @@ type Op struct {
 	// setProp: "" | setter ($o->setP(v))
 	// meth: "" (method form) | func (array_push / array_pop / array_shift / sort)
 	Inner []Op `json:"inner,omitempty"` // call: statements executed inside the callee on its by-value parameter
+	Arg   *RV    `json:"arg,omitempty"`  // call: the argument expression (default: the variable $vY)
+	Form  string `json:"form,omitempty"` // call: "" function | method | static | ctor | closure | named
+}
+
+func (o Op) callArg() *RV {
+	if o.Arg != nil {
+		return o.Arg
+	}
+	return RRd(V(o.Y))
 }
 
 func V(x int) *Place               { return &Place{K: "v", X: x} }
@@ -73,6 +88,7 @@ func KI(n int) IKey                { return IKey{N: n} }
 func KS(n int) IKey                { return IKey{S: true, N: n} }
 func RInt(n int) *RV               { return &RV{K: "int", N: n} }
 func RRd(p *Place) *RV             { return &RV{K: "rd", P: p} }
+func RCall(p *Place) *RV           { return &RV{K: "call", P: p} }
 func RLit(l Lit) *RV               { ll := l; return &RV{K: "lit", L: &ll} }
 func LInt(n int) Lit               { return Lit{K: "li", N: n} }
 func LArr(items ...Lit) Lit        { return Lit{K: "la", Items: items} }
@@ -148,6 +164,8 @@ func (r *RV) tok() string {
 		return "null"
 	case "lit":
 		return "lit " + r.L.tok()
+	case "call":
+		return "call " + r.P.tok()
 	}
 	return "rd " + r.P.tok()
 }
@@ -186,7 +204,7 @@ func (o Op) toks() []string {
 		return []string{fmt.Sprintf("ref %d %d", o.X, o.Y)}
 	case "call":
 		// $vX = callK($vY): bind, inner…, return + assign
-		ts := []string{fmt.Sprintf("setVar %d rd v %d", o.X, o.Y)}
+		ts := []string{fmt.Sprintf("setVar %d %s", o.X, o.callArg().tok())}
 		for _, in := range o.Inner {
 			ts = append(ts, in.toks()...)
 		}
@@ -254,8 +272,21 @@ func (r *renderer) rv(v *RV) string {
 		return "null"
 	case "lit":
 		return r.lit(*v.L)
+	case "call":
+		return r.callOf(v.P)
 	}
 	return r.place(v.P)
+}
+
+// a call expression that returns what the place holds
+func (r *renderer) callOf(p *Place) string {
+	switch p.K {
+	case "p":
+		return fmt.Sprintf("%s->get%d()", r.varName(p.X), p.P)
+	case "i":
+		return fmt.Sprintf("at(%s, %s)", r.place(p.B), r.key(*p.Key))
+	}
+	return fmt.Sprintf("ident(%s)", r.varName(p.X))
 }
 
 func (r *renderer) stmt(o Op) string {
@@ -324,12 +355,30 @@ func (r *renderer) stmt(o Op) string {
 		name := fmt.Sprintf("%scall%d", r.fnPrefix, *r.nFunc)
 		*r.nFunc++
 		in := &renderer{calleeVar: o.X, nObj: r.nObj, funcs: r.funcs, nFunc: r.nFunc, fnPrefix: r.fnPrefix}
-		fmt.Fprintf(r.funcs, "function %s($p) {\n", name)
+		var body strings.Builder
 		for _, s := range o.Inner {
-			fmt.Fprintf(r.funcs, "  %s\n", in.stmt(s))
+			fmt.Fprintf(&body, "  %s\n", in.stmt(s))
 		}
-		r.funcs.WriteString("  return $p;\n}\n")
-		return fmt.Sprintf("%s = %s(%s);", r.varName(o.X), name, r.varName(o.Y))
+		x, arg := r.varName(o.X), r.rv(o.callArg())
+		// every form binds the argument to the by-value parameter $p, runs the body, and hands $p back
+		switch o.Form {
+		case "method":
+			fmt.Fprintf(r.funcs, "class %s { function m($p) {\n%s  return $p;\n} }\n", name, body.String())
+			return fmt.Sprintf("%s = (new %s)->m(%s);", x, name, arg)
+		case "static":
+			fmt.Fprintf(r.funcs, "class %s { static function m($p) {\n%s  return $p;\n} }\n", name, body.String())
+			return fmt.Sprintf("%s = %s::m(%s);", x, name, arg)
+		case "ctor":
+			fmt.Fprintf(r.funcs, "class %s { public $r = null; function __construct($p) {\n%s  $this->r = $p;\n} }\n", name, body.String())
+			return fmt.Sprintf("%s = (new %s(%s))->r;", x, name, arg)
+		case "closure":
+			return fmt.Sprintf("%s = (function($p) {\n%s  return $p;\n})(%s);", x, body.String(), arg)
+		case "named":
+			fmt.Fprintf(r.funcs, "function %s($z = 0, $p = null) {\n%s  return $p;\n}\n", name, body.String())
+			return fmt.Sprintf("%s = %s(p: %s);", x, name, arg)
+		}
+		fmt.Fprintf(r.funcs, "function %s($p) {\n%s  return $p;\n}\n", name, body.String())
+		return fmt.Sprintf("%s = %s(%s);", x, name, arg)
 	}
 	return "/* ? */"
 }
@@ -338,6 +387,7 @@ const classPrelude = `class O { public $id = 0; public $p0 = null; public $p1 = 
   function get0() { return $this->p0; } function get1() { return $this->p1; }
   function set0($x) { $this->p0 = $x; } function set1($x) { $this->p1 = $x; } }
 function ident($x) { return $x; }
+function at($x, $k) { return $x[$k]; }
 function show($v) {
   if (is_array($v)) { $s = "["; foreach ($v as $k => $x) { $s = $s . $k . "=>" . show($x) . ","; } return $s . "]"; }
   if (is_null($v)) { return "null"; }
